@@ -443,6 +443,9 @@ def check(ctx, run):
     for need in ("registry_->setGroupFilters(arguments_->getGroupFilters())", "registry_->setNameFilters(arguments_->getNameFilters())",
                  "UtestShell::setRethrowExceptions(arguments_->isRethrowingExceptions())"):
         run.ob("R2", "runner: %s" % need, init.site, allc.count(need) == 1, witness=[c for c in allc if need.split("(")[0] in c])
+    # what the parsed filter lists mean when the registry asks a test whether it should run (shared with C02.R2)
+    from .C02 import selection_rules
+    selection_rules(prog, run, "R2")
     from .shared import runner_fold
     rt = prog.fn("CommandLineTestRunner::runAllTests")
     run.analysed(rt)
